@@ -6,4 +6,6 @@ set -e
 mkdir -p bin evidence
 go build -o bin/check ./cmd/check
 ./build_atlas.sh
+./c20rt/gen_overlay.sh
+go build -overlay build/overlay.json -o bin/check20 ./cmd/check20
 echo "setup ok"
